@@ -283,9 +283,12 @@ def _get_generaldyne_samples(state, modes, shots, detection_covariance):
     #
     # We might be better of setting `check_valid='ignore'` and verifying
     # positive-definiteness for ourselves.
+    # NOTE: The outcome density is proportional to
+    # exp(-(r_m - r)^T (sigma + sigma_m)^{-1} (r_m - r)), i.e., a normal distribution
+    # with covariance (sigma + sigma_m) / 2, see `GeneraldyneMeasurement`.
     return state._config.rng.multivariate_normal(
         mean=mean,
-        cov=cov,
+        cov=cov / 2,
         size=shots,
         tol=1e-7,
     )
